@@ -342,6 +342,39 @@ def build(repo=None, config="release", use_cache=True, extra_units=()):
     return res
 
 
+def witness_ast(repo, config, source, name):
+    """Parse a small witness translation unit against the tree's headers (nothing is executed) and return the raw clang
+    JSON nodes of the declarations whose name contains `name`."""
+    work = tempfile.mkdtemp(prefix="cimba-wit-")
+    try:
+        gendir = os.path.join(work, "gen")
+        os.mkdir(gendir)
+        for n in ("cmi_random_exp_zig.inc", "cmi_random_nor_zig.inc"):
+            open(os.path.join(gendir, n), "w").close()
+        src = os.path.join(work, "witness.c")
+        with open(src, "w") as f:
+            f.write(source)
+        flags = BASE_FLAGS + CONFIGS[config] + ["-I" + os.path.join(repo, "include"),
+                                                "-I" + os.path.join(repo, "src"), "-I" + gendir]
+        cmd = ["clang", "-fsyntax-only", "-Xclang", "-ast-dump=json", "-Xclang", "-ast-dump-filter=" + name,
+               "-Wno-everything"] + flags + [src]
+        r = subprocess.run(cmd, capture_output=True, text=True)
+        if r.returncode != 0:
+            raise AnalysisBroken("witness does not compile:\n%s" % r.stderr[:1500])
+        out, txt, i = [], r.stdout, 0
+        dec = json.JSONDecoder()
+        while True:
+            while i < len(txt) and txt[i] != "{":
+                i += 1
+            if i >= len(txt):
+                break
+            obj, i = dec.raw_decode(txt, i)
+            out.append(obj)
+        return out
+    finally:
+        shutil.rmtree(work, ignore_errors=True)
+
+
 if __name__ == "__main__":
     import time
     t = time.time()
